@@ -12,7 +12,9 @@
        * `acceptReassembled` flowsdecoder.go:211-225 (`packet`: "newIPv4 != ip4" — how fq decides that DefragIPv4
                             handed back a freshly reassembled datagram; `acceptReassembledOld` = the length test
                             it replaced, known finding `defrag-length`, fixed)
-       * `fsmCheck`        flowsdecoder.go:39-59 (`Accept` = gopacket TCPSimpleFSM.CheckState, options off)
+       * `acceptSegment`   flowsdecoder.go:40-63 (`Accept`: gopacket TCPSimpleFSM.CheckState = `fsmCheck`, and never
+                            dropping a segment with payload)
+       * `fqSectioning`, `fqInterfaceLink`, `blocksConsumed`  pcapng.go:339-397 (sections)
        * `linkToDecodeFn`  shared.go:10-18 (link type dispatch table)
        * `fieldFlowsDir`   shared.go:37-56 (the metadata exposed per direction)
   (iii) gopacket's assembler is NOT modelled.  It appears as an INTERFACE ASSUMPTION on the sequence of
@@ -173,10 +175,12 @@ def acceptReassembled (wasFragment completes : Bool) : Bool := wasFragment && co
     packet for reassembled iff the two differ — wrong when the other fragments carry exactly 20 bytes. -/
 def acceptReassembledOld (payloadLen lastFragTotalLength : Nat) : Bool := payloadLen != lastFragTotalLength
 
-/-! ### `(*TCPConnection).Accept`, flowsdecoder.go:39-59: with `CheckTCPOptions: false` (pcap.go:91,
-    pcapng.go:359) it is exactly gopacket's `TCPSimpleFSM.CheckState` (reassembly/tcpcheck.go:170-246) with
-    `SupportMissingEstablishment: true` (flowsdecoder.go:107-109), transliterated here.  A packet for which it
-    answers false never reaches the assembler. -/
+/-! ### `(*TCPConnection).Accept`, flowsdecoder.go:40-63: with `CheckTCPOptions: false` (pcap.go:91,
+    pcapng.go) it runs gopacket's `TCPSimpleFSM.CheckState` (reassembly/tcpcheck.go:170-246, transliterated as
+    `fsmCheck`) with `SupportMissingEstablishment: true` (flowsdecoder.go:111-113) and, since fix 1ef5f83b,
+    rejects a segment only if the state machine says no AND the segment carries no payload (`acceptSegment`).
+    Before the fix the answer of `CheckState` alone decided (`fsmRun`, kept for the regression theorem
+    `Props.C19.fsm_reorder_regression`).  A rejected packet never reaches the assembler. -/
 
 structure Fsm where
   state : Nat := 0      -- 0 Closed, 1 SynSent, 2 Established, 3 CloseWait, 4 LastAck, 5 Reset
@@ -214,7 +218,20 @@ def fsmCheck (t : Fsm) (syn ack fin rst : Bool) (dir : Bool) : Fsm × Bool :=
     else (t, false)
   | _ => (t, false)
 
-/-- the packets of one connection (flags and direction) that `Accept` lets through, in order -/
+/-- `Accept` as it is now (flowsdecoder.go:41-50): the state machine always advances; the segment is dropped only
+    when `CheckState` fails and `len(tcp.Payload) == 0` -/
+def acceptSegment (t : Fsm) (syn ack fin rst : Bool) (dir : Bool) (hasPayload : Bool) : Fsm × Bool :=
+  let r := fsmCheck t syn ack fin rst dir
+  (r.1, r.2 || hasPayload)
+
+/-- the packets of one connection (flags, direction, carries payload) that `Accept` lets through, in order -/
+def acceptRun : Fsm → List (Bool × Bool × Bool × Bool × Bool × Bool) → List Bool
+  | _, [] => []
+  | t, (syn, ack, fin, rst, dir, pay) :: rest =>
+    let r := acceptSegment t syn ack fin rst dir pay
+    r.2 :: acceptRun r.1 rest
+
+/-- OLD `Accept` (before 1ef5f83b): the packets `CheckState` alone lets through -/
 def fsmRun : Fsm → List (Bool × Bool × Bool × Bool × Bool) → List Bool
   | _, [] => []
   | t, (syn, ack, fin, rst, dir) :: rest =>
@@ -348,28 +365,41 @@ def defragState {κ : Type} [BEq κ] : FragGroups κ α → List (κ × Frag α)
   | st, [] => st
   | st, (key, f) :: rest => defragState (defragStep st key f).1 rest
 
-/-! ### pcapng sections (format/pcap/pcapng.go:318-376, as the code is)
+/-! ### pcapng sections (format/pcap/pcapng.go:339-397)
 
   `decodePcapng` makes a NEW flows decoder and interface table for every section, flushes the assembler at
-  the end of the section and emits the section's flows (:355-368).  Where a section ends is decided by
-  `decodeSection` (:318-329): with `section_length = -1` the loop runs to the end of the FILE — a further
-  section header block does not start a new section, its interface descriptions are appended to the same
-  table (`dc.interfaceTypes[len(dc.interfaceTypes)] = typ`, :213) while the packets of that section keep
-  counting interface ids from 0 (known finding `pcapng-shb-section`); with a given length the loop runs while
-  `d.Pos()-sectionStart < sectionLength*8`, where `sectionStart` is the start of the section header block
-  although the length excludes that block (known finding `pcapng-section-length`). -/
+  the end of the section and emits the section's flows.  Where a section ends is decided by `decodeSection`
+  (:339-355, after fix 501642c1): with `section_length = -1` at the next section header block or the end of the
+  file; with a given length when that many bytes have been read AFTER the section header block.  So fq's
+  sections are the file's sections, each with its own interface table.
+  Before the fix (`…Old` below, kept for the regression theorems): with −1 the loop ran to the end of the FILE —
+  a further section header block did not start a section, its interface descriptions were appended to the same
+  table while its packets kept counting interface ids from 0; a given length was counted from the START of the
+  section header block although it excludes that block. -/
 
-/-- how fq groups the packets of the file's sections into flows sections -/
-def fqSectioning {β : Type} (lengthGiven : Bool) (fileSections : List (List β)) : List (List β) :=
+/-- how fq groups the packets of the file's sections into flows sections: as they are -/
+def fqSectioning {β : Type} (fileSections : List (List β)) : List (List β) := fileSections
+
+/-- the link type fq uses for interface id `j` of file section `s` (0-based): that section's own table -/
+def fqInterfaceLink {β : Type} (links : List (List β)) (s j : Nat) : Option β := (links.getD s [])[j]?
+
+/-- number of blocks `decodeSection`'s loop decodes after the section header block: it goes on while
+    `d.Pos()-sectionStart < sectionLength`; `pos` = bytes between `sectionStart` and the next block -/
+def blocksConsumed : Nat → Nat → List Nat → Nat
+  | _, _, [] => 0
+  | pos, len, b :: bs => if pos < len then blocksConsumed (pos + b) len bs + 1 else 0
+
+/-- OLD sectioning (before 501642c1) -/
+def fqSectioningOld {β : Type} (lengthGiven : Bool) (fileSections : List (List β)) : List (List β) :=
   if lengthGiven then fileSections else [fileSections.flatten]
 
-/-- the link type fq uses for interface id `j` of file section `s` (0-based) -/
-def fqInterfaceLink {β : Type} (lengthGiven : Bool) (links : List (List β)) (s j : Nat) : Option β :=
+/-- OLD interface lookup (before 501642c1): with −1 the accumulated table of all sections read so far -/
+def fqInterfaceLinkOld {β : Type} (lengthGiven : Bool) (links : List (List β)) (s j : Nat) : Option β :=
   if lengthGiven then (links.getD s [])[j]? else ((links.take (s + 1)).flatten)[j]?
 
-/-- with a given section_length fq leaves the section before its last block(s) iff the last block is not
-    longer than the section header block -/
-def sectionEndsEarly (shbLen lastBlockLen : Nat) : Bool := lastBlockLen != 0 && lastBlockLen ≤ shbLen
+/-- OLD: with a given section_length fq left the section before its last block(s) iff the last block was not
+    longer than the section header block (`sectionStart` was the start of that block: `blocksConsumed shbLen`) -/
+def sectionEndsEarlyOld (shbLen lastBlockLen : Nat) : Bool := lastBlockLen != 0 && lastBlockLen ≤ shbLen
 
 /-- every section starts from fresh connections: the calls of each section run on their own -/
 def runSections (secs : List (List (SGCall α))) : List (Conn α) := secs.map (runSG {})
